@@ -14,6 +14,7 @@ EXPLANATION = (
     "character to the next `m` and otherwise sums per-char widths. R20.5 break placement: \"\\n\" is inserted only for i != 0 and hard_width < line_width + word_width, and line_width is reset before the carried-over indent is re-emitted and counted. NOT decided: the width bound and word order for all "
     "strings and widths (needs execution)."
     " R20.5c (name-independent): a newline is inserted only under a condition over a position inside the current call (not only over the wrapper's carried state)."
+    ' R20.4b (added): ch_width (unicode configuration) is UnicodeWidthChar::width(ch).unwrap_or(0) on every path.'
 )
 TRUSTED = ["rustc MIR", "clapfacts", "lib/panics.py", "audit/panic.tsv", "anstream::adapter::strip_str yields sub-slices of its input in order"]
 ASSUMPTIONS = ["str::trim_end / split_inclusive / char_indices behave as documented"]
